@@ -89,6 +89,9 @@ PRE = [["compute_tip_position"],
 REGRESSORS = ["Decision Tree", "SVR (linear kernel)"]
 WEIGHT_CP = [None, 0, 1e-6]
 SEGMENTS = [None, "retract"]
+#: geometrical correction factor of the fit (fit_model keyword gcf_k); the fitted contact point a curve reports
+#: (and a map shows) is in measured coordinates whatever the factor
+GCF_K = [1.0, 1.0, 0.5, 2.0, 1.0]
 
 RECORDED_SINGLE = [
     "fmt-jpk-fd_flipsign_2015.05.22-15.31.49.352.jpk-force",
@@ -195,7 +198,8 @@ def st_load_case(draw):
     files = []
     for i in range(nfiles):
         t = draw(st.sampled_from(["synth", "synth", "rec", "junk", "recmap", "csv", "synth", "junk", "recmap", "rec", "rec", "synth"]))
-        ent = {"t": t, "dir": draw(st.sampled_from(dirs)), "stem": draw(st.sampled_from(["m", "zz", "A", "0", "x y"]))}
+        ent = {"t": t, "dir": draw(st.sampled_from(dirs)), "stem": draw(st.sampled_from(["m", "zz", "A", "0", "x y"])),
+               "plain": draw(st.booleans())}
         if t == "synth":
             ent["file"] = draw(st_synth_file(sizes=("small",), p_lacking=True))
         elif t == "rec":
@@ -247,7 +251,8 @@ def st_ops(max_ops):
     c = st.integers(0, 11)
     pre = st.integers(0, len(PRE) - 1)
     fit = st.fixed_dictionaries({"op": st.just("fit"), "c": c, "model": st.integers(0, len(MODELS) - 1), "pre": pre,
-                                 "wcp": st.integers(0, len(WEIGHT_CP) - 1), "seg": st.integers(0, len(SEGMENTS) - 1)})
+                                 "wcp": st.integers(0, len(WEIGHT_CP) - 1), "seg": st.integers(0, len(SEGMENTS) - 1),
+                                 "gcf": st.integers(0, len(GCF_K) - 1)})
     fit0 = st.fixed_dictionaries({"op": st.just("fit"), "c": c, "model": st.just(0), "pre": st.just(0),
                                   "wcp": st.just(0), "seg": st.just(0)})
     rate = st.fixed_dictionaries({"op": st.just("rate"), "c": c, "reg": st.integers(0, len(REGRESSORS) - 1)})
@@ -279,7 +284,8 @@ def st_qmap_case(draw):
     n = len(case["file"]["curves"]) if source == "synth" else 8
     fitted = [j for j in range(n) if draw(st.booleans())]
     rated = [j for j in fitted if draw(st.booleans())]
-    pre_ops = [{"op": "fit", "c": j, "model": 0, "pre": 0, "wcp": 0, "seg": 0} for j in fitted]
+    pre_ops = [{"op": "fit", "c": j, "model": 0, "pre": 0, "wcp": 0, "seg": 0,
+                "gcf": draw(st.integers(0, len(GCF_K) - 1))} for j in fitted]
     reg = draw(st.integers(0, len(REGRESSORS) - 1))
     pre_ops += [{"op": "rate", "c": j, "reg": reg} for j in rated]
     case["ops"] = pre_ops + draw(st_ops(16))
@@ -412,8 +418,12 @@ def _check_load(case, ctx, root, afmformats, MissingMetaDataError, nanite):
         d = base.joinpath(*ent["dir"])
         d.mkdir(parents=True, exist_ok=True)
         t = ent["t"]
+        # plain names: files in different sub-folders may carry the same name (instruments restart numbering)
+        pfx = "" if ent.get("plain") else f"f{i}_"
         if t == "synth":
-            p = d / f"f{i}_{ent['stem']}.h5"
+            p = d / f"{pfx}{ent['stem']}.h5"
+            if p.exists():
+                p = d / f"f{i}_{ent['stem']}.h5"
             write_synth_file(p, ent["file"])
             n = len(ent["file"]["curves"])
             enums = sorted(range(n), key=str)      # h5py native order of the groups "0", "1", "10", ...
@@ -421,7 +431,10 @@ def _check_load(case, ctx, root, afmformats, MissingMetaDataError, nanite):
             written.append((p, t, enums, lacking))
         elif t in ("rec", "recmap", "csv"):
             name = RECORDED_CSV if t == "csv" else ent["name"]
-            p = d / f"f{i}_{ent['stem']}{''.join(pathlib.Path(name).suffixes[-1:])}"
+            sfx = ''.join(pathlib.Path(name).suffixes[-1:])
+            p = d / f"{pfx}{ent['stem']}{sfx}"
+            if p.exists():
+                p = d / f"f{i}_{ent['stem']}{sfx}"
             shutil.copy(data_dir() / name, p)
             written.append((p, t, recorded_enums(p), t == "csv"))
         else:
@@ -457,7 +470,9 @@ def _check_load(case, ctx, root, afmformats, MissingMetaDataError, nanite):
                   classes=[f"load:{desc['target']}", f"load:api={api}", f"load:files={len(involved)}",
                            "load:refusal-expected" if refuse else "load:accepted",
                            "load:override" if override else "load:no-override"]
-                  + sorted({f"load:has-{w[1]}" for w in involved}))
+                  + sorted({f"load:has-{w[1]}" for w in involved})
+                  + (["load:equal-names-in-different-folders"]
+                     if len({w[0].name for w in involved}) < len(involved) else []))
 
     # substrate: order of the files
     found = afmformats.find_data(target, modality="force-distance")
@@ -832,6 +847,10 @@ def _check_qmap(case, ctx, root, nanite):
             else:
                 # (the settings persist on the curve: an ordinary fit asks for the full range again)
                 kw.update(range_type="absolute", range_x=(0, 0))
+            # (persisting setting as well: always given)
+            kw["gcf_k"] = GCF_K[op.get("gcf", 0)]
+            if kw["gcf_k"] != 1.0:
+                classes.add("qmap:fit-with-gcf_k")
             if ms["pre"] != pre:
                 ms["rated"] = False
             ms["pre"] = pre
